@@ -93,6 +93,9 @@ func propC07(c *Ctx, r *Report) {
 	r.Clauses = append(r.Clauses, "struct alignment (E31): the alignment a struct declaration's span is rounded up to - into which the members' @align attributes flow - is persisted by the lowerer and read by the StructType arm of every (alignment, size) function, so a struct nested in another struct or in an array is aligned by AlignOf(S) including @align")
 	c.runStructAlign(r, "layout.structalign", "wgsl/internal/lower")
 	r.floor("layout.structalign", 2)
+	r.Clauses = append(r.Clauses, "declarator extents (E50): a self-recursive function that prints one [extent] per array level prints its own extent before recursing into the element type (HLSL, GLSL)")
+	c.runExtentOrder(r, "array.extentorder", inPkgs("hlsl", "glsl", "msl"))
+	r.floor("array.extentorder", 2)
 	r.Clauses = append(r.Clauses, attrsIndepClause)
 	c.runAttrsIndependent(r, "attrs.independent", inPkgs("wgsl"))
 	r.floor("attrs.independent", 2)
